@@ -3,6 +3,7 @@
 import json, subprocess
 log = subprocess.check_output("git -C /repo log --reverse --format='%h %s' 10c4525..HEAD", shell=True, text=True).splitlines()
 propmap = {
+ 'Commit writes the finished-record when pieces of the batch were flushed': 'C04',
  'batch ids come from one generator per process': 'C04 C03',
  'FlushStaged drops the staged records when the write fails': 'C11 C04',
  'checkOptions rejects an unknown index type': 'C16 C09',
